@@ -211,9 +211,14 @@ int main(int argc, char **argv) {
                 long cnt = -1;
                 if (U) {
                     cnt = (long) U->load(U, scratch, sep, enc);
+                    if (!inject && cnt >= 0) {
+                        /* loading the same file once more: the same number of entries is loaded again (they replace or follow the first lot) */
+                        qlisttbl_t *W2 = qlisttbl(opts & ~QLISTTBL_THREADSAFE);
+                        if (W2) { long c1 = (long) W2->load(W2, scratch, sep, enc), c2 = (long) W2->load(W2, scratch, sep, enc); if (c1 != cnt || c2 != cnt) badio++; W2->free(W2); }
+                    }
                     int f = 1;
                     for (qlisttbl_obj_t *p = U->first; p; p = p->next) { vh_bprintf(&ob, "%s[%d,%d]", f ? "" : ",", kid(p->name), vid(p->data, p->size)); f = 0; }
-                    ok = sok && cnt >= 0 && (vh_failed == 0 || (size_t) cnt == T->size(T));
+                    ok = sok && !badio && cnt >= 0 && (vh_failed == 0 || (size_t) cnt == T->size(T));
                     U->free(U);
                 } else ok = 0;
                 n = cnt;
